@@ -7,8 +7,8 @@ enum membership, sortedness, the shape of the object), so that the schema "admit
     exactly when `deserialize` will find its condition true (the discriminant as it is written);
   * of the members of a union laid out *before* its discriminant (conditional members that
     `deserialize` parks in a temporary buffer until the discriminant is known) exactly one is present;
-  * an object of a concrete struct with a factory type carries the discriminator values fixed by its
-    initializers (so that the factory picks the same class);
+  * an object held at an abstract (factory) type carries the discriminator values fixed by the
+    initializers of its class (so that the factory picks the same class);
   * members and array elements are admissible, recursively.
 
 Executable (core Lean only) so that the harness can evaluate it; closed by fuel like `recN`.
@@ -69,21 +69,37 @@ def discOnObject (rec : Rec) (d : StructDef) (vs : List (String × Val)) (c : Co
 
 /-! ### admissibility of one struct object -/
 
-/-- the member's condition and its presence in the object agree -/
+def Val.isEmptyBytes : Val → Bool
+  | .bytes [] => true
+  | _ => false
+
+def FK.isBarray : FK → Bool
+  | .barray _ => true
+  | _ => false
+
+/-- the member's condition and its presence in the object agree.
+    * A member guarded by a condition on another member: if the condition does not hold, it is `none`.
+    * A member the generated code tests by truthiness (`viaSelf`): if `deserialize` will find the
+      condition false it is `none`; if true, it is truthy -- or an empty byte array, which is not
+      written and is read back as the same empty byte array. -/
 def admCond (rec : Rec) (d : StructDef) (vs : List (String × Val)) (f : Field) : Bool :=
   match f.cond with
   | none => true
   | some c =>
-    (match condOnObject rec d.fields vs f with
-      | .ok false => !f.kind.carries || (match Val.get vs f.name with | some .none => true | _ => false)
-      | _ => true) &&
-    (if c.viaSelf then
+    if c.viaSelf then
       match discOnObject rec d vs c with
       | .ok a => (match condHolds c.op c.value a with
-        | .ok p => p == truthy ((Val.get vs f.name).getD .none)
+        | .ok false => (match Val.get vs f.name with | some .none => true | _ => false)
+        | .ok true =>
+          (match Val.get vs f.name with
+            | some v => truthy v || (f.kind.isBarray && v.isEmptyBytes)
+            | none => false)
         | .error _ => false)
       | .error _ => false
-    else true)
+    else
+      match condOnObject rec d.fields vs f with
+      | .ok false => !f.kind.carries || (match Val.get vs f.name with | some .none => true | _ => false)
+      | _ => true
 
 /-- the member's value (the elements of an array member) are admissible -/
 def admMember (a : String → Val → Bool) (vs : List (String × Val)) (f : Field) : Bool :=
@@ -139,7 +155,7 @@ def admUnionsFrom (rec : Rec) (d : StructDef) (vs : List (String × Val)) : List
 
 def okStruct (S : Schema) (rec : Rec) (a : String → Val → Bool)
     (d : StructDef) (vs : List (String × Val)) : Bool :=
-  d.fields.all (fun f => admCond rec d vs f && admMember a vs f) && admUnionsFrom rec d vs [] d.fields && admDisc S d vs
+  d.fields.all (fun f => admCond rec d vs f && admMember a vs f) && admUnionsFrom rec d vs [] d.fields
 
 def okStep (S : Schema) (rec : Rec) (a : String → Val → Bool) (ty : String) (v : Val) : Bool :=
   match S.find ty with
@@ -148,7 +164,8 @@ def okStep (S : Schema) (rec : Rec) (a : String → Val → Bool) (ty : String) 
     | .struct vty vs =>
       if d.abstract then
         match S.find vty with
-        | some (.struct dc) => if dc.abstract then a vty v else okStruct S rec a dc vs
+        -- seen through its factory type, the object must carry the discriminator values of its class
+        | some (.struct dc) => if dc.abstract then a vty v else okStruct S rec a dc vs && admDisc S dc vs
         | _ => a vty v
       else okStruct S rec a d vs
     | _ => true
@@ -160,5 +177,44 @@ def admN (S : Schema) (T : String → Bytes → Bytes) : Nat → String → Val 
   | n + 1 => okStep S (recN S T n) (admN S T n)
 
 def adm (S : Schema) (T : String → Bytes → Bytes) (ty : String) (v : Val) : Bool := admN S T (defaultFuel S) ty v
+
+/-! ### derived size members fit their widths
+
+`serialize` re-computes the struct size, byte-size, size-of and size-ref members from the object. For a
+value that was *decoded* (leniently, e.g. integers read as 0 past the end of the buffer) the re-computed
+size is not bounded by the input; `fitN` says that each of them fits the width of its member. -/
+
+def FK.isSizeLike : FK → Bool
+  | .sizeF _ | .byteSize .. | .sizeOf .. | .sizeRef .. => true
+  | _ => false
+
+def fitField (rec : Rec) (d : StructDef) (vs : List (String × Val)) (f : Field) : Bool :=
+  if f.kind.isSizeLike then
+    match derivedValue rec d vs f.kind with
+    | .ok i => inRange f.kind.width f.kind.signed i
+    | .error _ => true
+  else true
+
+def fitStruct (rec : Rec) (a : String → Val → Bool) (d : StructDef) (vs : List (String × Val)) : Bool :=
+  d.fields.all (fun f => fitField rec d vs f && admMember a vs f)
+
+def fitStep (S : Schema) (rec : Rec) (a : String → Val → Bool) (ty : String) (v : Val) : Bool :=
+  match S.find ty with
+  | some (.struct d) =>
+    match v with
+    | .struct vty vs =>
+      if d.abstract then
+        match S.find vty with
+        | some (.struct dc) => if dc.abstract then a vty v else fitStruct rec a dc vs
+        | _ => a vty v
+      else fitStruct rec a d vs
+    | _ => true
+  | _ => true
+
+def fitN (S : Schema) (T : String → Bytes → Bytes) : Nat → String → Val → Bool
+  | 0 => fun _ _ => true
+  | n + 1 => fitStep S (recN S T n) (fitN S T n)
+
+def fit (S : Schema) (T : String → Bytes → Bytes) (ty : String) (v : Val) : Bool := fitN S T (defaultFuel S) ty v
 
 end SymbolVerif.Codec
